@@ -151,9 +151,9 @@ Lemma spec_is_arc_eq x t : qsorted (x :: t) -> in_range (x :: t) -> last t x <= 
 Proof. intros Hs Hr Hle.
   assert (Hall : forall q, In q (x :: t) -> q == x).
   { intros q Hq. pose proof (x_le_all x t Hs q Hq). pose proof (all_le_lst x t Hs q Hq). lra. }
-  rewrite <- (sector_core_spec_eq x t Hs Hr Hle).
-  assert (Z : sector_core (x :: t) == 0).
-  { rewrite (sector_core_spec_eq x t Hs Hr Hle). unfold sector_spec_sorted. simpl cgaps.
+  rewrite <- (sector_core_v1_spec_eq x t Hs Hr Hle).
+  assert (Z : sector_core_v1 (x :: t) == 0).
+  { rewrite (sector_core_v1_spec_eq x t Hs Hr Hle). unfold sector_spec_sorted. simpl cgaps.
     destruct (gaps_all_equal x x t x (Qeq_refl x) Hall) as [I1 I2].
     assert (N : gaps_from x x t <> []) by (destruct t; simpl; discriminate).
     destruct (qmax_list_spec _ N) as [MI ML]. pose proof (ML _ I1) as G. pose proof (Hall _ (last_in x t)) as El.
